@@ -38,6 +38,7 @@ def gen_case(rng, tier):
     prof = G.default_profile(rng, tier)
     prof["relaunch"] = rng.choice([0, 0, 0.2])
     prof["while_loops"] = rng.choice([0, 0, 0, 0.3])  # counted loops written as scf.while
+    prof["memory"] = rng.choice([0, 0, 0, 0.4])  # some configuration values are kept in memory
     ast = G.AccfgGen(rng, prof).program()
     return {"ast": ast, "envs": gen_envs(rng, K_ENVS[tier]), "hoist": rng.random() < 0.7}
 
